@@ -199,7 +199,7 @@ def run(ctx):
     kf = {k["sig"]: k for k in known_findings() if k["property"] == ID and k["kind"] == "known"}
     violations, known = [], []
     # glue probes (monitor only): the code around the modelled handlers - unreachable peers keep being contacted, a completed exchange reaches the failure detector
-    gv, gcov = glue_probes(ID, binary, wd, rng, quick, which=('round', 'heartbeat'))
+    gv, gcov = glue_probes(ID, binary, wd, rng, quick, which=('round', 'heartbeat', 'rediscover'))
     violations += gv
     # the real accrual detector wired into the real state behind a virtual clock (silence, recovery, expiry)
     fv, fcov = fd_probe(ID, binary, wd, rng, quick)
